@@ -115,9 +115,9 @@ func TestC01Random(t *testing.T) {
 		})
 		desc := map[string]any{
 			"i": i, "n": int(n), "msgs": msgs, "pDrop": pDrop, "pDup": pDup,
-			"maxDelayMs": int(maxDelay / time.Millisecond),
-			"staticMs":   int(static / time.Millisecond),
-			"latencyMs":  int(cfg.Latency / time.Millisecond),
+			"maxDelayMs":  int(maxDelay / time.Millisecond),
+			"staticMs":    int(static / time.Millisecond),
+			"latencyMs":   int(cfg.Latency / time.Millisecond),
 			"faultUntilS": int(until / time.Second), "sizes": sizes,
 			"seed": seed(), "pingMs": pingMs, "sendLagMs": lagMs,
 		}
